@@ -4,7 +4,7 @@
    about Model.Tune.make_tune_ok (C15) is a theorem about the translated source.
    Stdlib only, no axioms. *)
 From Coq Require Import String.
-From Amq Require Import Lib.Base Gen.Consts Gen.Src Model.Tune.
+From Amq Require Import Lib.Base Lib.RsResult Gen.Consts Gen.SrcTune Model.Tune.
 Open Scope string_scope.
 
 Definition to_rs (r : tune_res) : rs_result :=
